@@ -47,6 +47,46 @@ INFO = {
  'C19-b': ('`~operation_unwinder`: rolls back only when `state == abort` (not after an exception)', 'after'),
  'C20-a': ('property_names_validator: `mutable Json key_` scratch member', 'before'),
  'C20-b': ('JMESPath `to_number`: function-local `static std::string s` scratch', 'after'),
+ 'C01-3a': ('write_number `dtoa_general`: the Grisu fallback is called with the absolute value `u` instead of `v` (sign lost for ~0.7% of negative doubles)', 'after'),
+ 'C01-3b': ('pretty printer `noesc` fast path advances `column_` by code points, the escaping path by code units (line breaks depend on how the value was built)', 'after'),
+ 'C02-3a': ('json_decoder::visit_begin_array: keyed push with index 0 instead of `index_++`', 'before'),
+ 'C02-3b': ('`is_legal_utf8`: the 0xF4 second-byte row dropped', 'before'),
+ 'C03-3a': ('stream_source::read: short-read test against `length` instead of `length-len`', 'before'),
+ 'C03-3b': ('csv_parser: `--level_` moved before the close event and its mark-level test in one sub-field closer', 'after'),
+ 'C04-3a': ('bigint `operator>>=`: `this_view = get_storage_view()` dropped after the shrinking resize', 'after'),
+ 'C04-3b': ('grisu3 `normalized_boundaries`: lower boundary `(v.f << 2) - 2` instead of `- 1` at powers of two', 'declined'),
+ 'C05-3a': ('csv m_columns_filter: `++level2_` moved out of the `name_index_ < column_names_.size()` guard (end_array indexes past the cache)', 'after'),
+ 'C05-3b': ('date-time validator accepts month 00, which reaches `days_in_month()`\'s `__builtin_unreachable()`', 'before'),
+ 'C06-3a': ('cbor_encoder::write_string: stringref eligibility by `stringref_map_.size()`', 'before'),
+ 'C06-3b': ('msgpack ext16 written as marker, type, length instead of marker, length, type', 'before'),
+ 'C07-3a': ('bson_parser: Timestamp (0x11) read and emitted as int64', 'before'),
+ 'C07-3b': ('ubjson_parser::end_object: `--nesting_depth_` dropped', 'after'),
+ 'C08-3a': ('cbor_encoder::visit_byte_string: stringref eligibility by `bytestringref_map_.size()`', 'before'),
+ 'C08-3b': ('msgpack `write_timestamp`: timestamp-32 chosen by `nanoseconds == 0` alone (seconds >= 2^32 truncated)', 'after'),
+ 'C09-3a': ('order_preserving object `insert(first,last)`: `bloom_set` dropped after the unchecked append (duplicate keys inside the range)', 'after'),
+ 'C09-3b': ('sorted_json_object::insert(first,last): `stable_sort` replaced by `sort` before `unique`', 'before'),
+ 'C10-3a': ('ordered_json_object::flatten_and_destroy: `case object:` label dropped (recursive destruction of nested objects)', 'before'),
+ 'C10-3b': ('source_reader::read: `n = unread` instead of one chunk when nothing is buffered', 'before'),
+ 'C11-3a': ('make_contains_validator: default minContains/maxContains objects no longer built', 'after'),
+ 'C11-3b': ('object_schema_validator: hand-back decided by the widened local context', 'before'),
+ 'C12-3a': ('json_location parser: escape `\\\'` pushes `"`', 'after'),
+ 'C12-3b': ('one `json_replace` overload evaluates without `nodups`', 'before'),
+ 'C13-3a': ('JMESPath `slice::get_start`: negative rebased start clamped to 0', 'after'),
+ 'C13-3b': ('`max_by`: `key1 = key2` dropped (running maximum never updated)', 'after'),
+ 'C14-3a': ('jsonpointer::remove: index parsed into `std::ptrdiff_t` ("-0" removes element 0)', 'after'),
+ 'C14-3b': ('`flatten_`: member name appended without `escape()`', 'before'),
+ 'C15-3a': ('apply_patch `move`: `definite_path` hoisted above the `remove`', 'before'),
+ 'C15-3b': ('`add_if_absent`: leading-zero rejection dropped in this sibling only (undo `remove` then fails and rollback stops)', 'after'),
+ 'C16-3a': ('from_diff: nested diff emitted only when not `empty()`', 'before'),
+ 'C16-3b': ('apply_merge_patch_: `Json item` hoisted out of the loop (absent branch reuses the previous member\'s value)', 'after'),
+ 'C17-3a': ('staj_cursor `to_json_container`: double elements of arrays built without the event tag', 'after'),
+ 'C17-3b': ('`JSONCONS_MEMBER_COUNT_LAST`: `<` became `<=`', 'before'),
+ 'C18-3a': ('csv_parser `unquoted_string`: `subfield_delimiter_ != char_type()` guard dropped on one site', 'after'),
+ 'C18-3b': ('TOON `encode_array_content`: inner array header without the delimiter marker', 'after'),
+ 'C19-3a': ('jsonpath `create_path_node`: `emplace_back(temp.release())`', 'after'),
+ 'C19-3b': ('heap_string destroy: deallocation size without `*sizeof(char_type)` (wrong for wchar_t)', 'before'),
+ 'C20-3a': ('JSONPath `tokenize()`: one-entry regex cache in function-local statics', 'before'),
+ 'C20-3b': ('`min_contains_keyword` gains a `count_` member set from the const `do_validate` through a unique_ptr', 'before'),
 }
 
 def main():
